@@ -295,3 +295,29 @@ PROPS['C17'] = {
     'assumptions': COMMON_ASSUMPTIONS + ['cluster pointers are valid (premise of the statement)',
                                          'the storage honours the Read contract (n <= buf.len())'],
 }
+
+PROPS['C16'] = {
+    'modules': ['c16'],
+    'level': 'other',
+    'quick_configs': ['default'],
+    'thorough_configs': ALL,
+    'controls': [],
+    'floors': {'default': {'S1': 1, 'S2.checksum': 1, 'S3.rescan': 1, 'S3.plain': 1}},
+    'rule_text': 'obligations: the character-mapping decision table over all 0x110000 code points, the checksum data '
+                 'path (three links), the rescan-per-retry condition, the bookkeeping call and the 8-case table of the '
+                 'plain-form decision; non-trivial = partition walk, path query or dependence query',
+    'explanation': 'S1: the decision table of copy_short_name_part over every code point equals the short-name rules '
+                   '(legal ASCII characters stored upper-cased, space and dot dropped, everything else `_`; outcome of '
+                   'the store computed relative to the character). S2: the checksum in every generated long-name slot is '
+                   'lfn_checksum of the name() of the very entry value serialised after the slots. S3: after the '
+                   'collision bitmaps are reset the directory is rescanned with the generator before the next alias is '
+                   'generated, every non-matching entry is recorded, and the un-numbered form is chosen exactly when '
+                   'lossless && fits && !exact_match (all 8 cases). Not decided: uniqueness and termination for arbitrary '
+                   'directory populations.',
+    'claim': 'Legality of every stored byte for every input character (exact), the checksum link, and the structural '
+             'conditions of collision bookkeeping; uniqueness/termination over populations are not decided.',
+    'level_note': 'the store outcome is classified relative to the representative character of each partition interval '
+                  '(cut points include the ASCII case boundaries)',
+    'technique': 'static analysis: decision-region walk + data-dependence and path rules on MIR',
+    'assumptions': COMMON_ASSUMPTIONS,
+}
